@@ -480,13 +480,16 @@ class ExprCompiler(CompilerBase, AstVisitor[Wire]):
     def visit_PartialApply(self, node: PartialApply) -> Wire:
         func_ty = get_type(node.func)
         assert isinstance(func_ty, FunctionType)
+        # Compile the function first: Loading a generic method as a value (`s.foo`
+        # without calling it) is rejected there, whereas converting its parametrised
+        # type to Hugr below would be an internal error
+        func_wire = self.visit(node.func)
+        arg_wires = [self.visit(arg) for arg in node.args]
         op = PartialOp.from_closure(
             func_ty.to_hugr(self.ctx),
             [get_type(arg).to_hugr(self.ctx) for arg in node.args],
         )
-        return self.builder.add_op(
-            op, self.visit(node.func), *(self.visit(arg) for arg in node.args)
-        )
+        return self.builder.add_op(op, func_wire, *arg_wires)
 
     def visit_TypeApply(self, node: TypeApply) -> Wire:
         # For now, we can only TypeApply global FunctionDefs/Decls.
